@@ -29,6 +29,8 @@ type bcIns struct {
 	Pos      token.Pos
 	VType    string // Go type of the operand expression
 	PushNil  bool   // oppush of the literal nil
+	Native   bool   // opcall of a native triple [3]any{callback, argcnt, name}
+	Name     string // … its name operand when the lowering code determines it ("" otherwise)
 }
 
 // bcEffects: data-stack effect of each opcode in forward execution (pop count, push count), for the ops whose
